@@ -19,6 +19,8 @@ def ident(E_, st, frame, callee, argvals, dest_ty):
 
 
 def run(res, tier):
+    global CHAIN
+    CHAIN = 3 if tier == "quick" else 5
     E = mprop.engine(res)
     res.extra.setdefault("source_files_sha256", {}).update(mprop.source_hashes(["src/utils/archive.rs"]))
     PAGE = z3.BitVecVal(256, 64)
